@@ -22,10 +22,33 @@ Space   tagged BAMs from gen/c12_bam.py (3-4 contigs, 3 cells, DS on every multi
           filter_function = the module's read_counts configured as the property words the filter.
         + conformance: free-running runs with the real multiprocessing.Pool in a fresh interpreter (gen/c12_run.py),
           compared with the oracle and with the scheduled result.
-Oracle  oracles/c12_oracle.py: direct count over the BAM records (until_eof), from the property text.
+        + options (ext BAMs: the core records plus records WITHOUT an SM tag, read 2 of a discordant pair, complete
+          pairs, MAPQ threshold+1 / 255, mp bad / unknown, records with two reasons not to count): every
+          (bin size, bins per job) x option set of generate_commands / obtain_counts - dedup=False, kwargs ignore_mp,
+          both, min_mq None / 0, two key tags, a one-element path list, an explicit count_function, skip_contigs
+          (first / last as a set / two / all / unknown name / empty / with allele tag), head (1, 2, exactly all jobs,
+          more), alt_spans (one / two contigs / unknown name) - x {submission, reversed} order (thorough: + <=1 swap
+          and max_fragment_size 0 / 20 / 1000).  head < all jobs: only "never more than the full matrix" is
+          demanded; alt_spans: the remapped contigs are only required to keep every record once per cell and to give
+          the same matrix for every bins-per-job / order (reference: 1 bin per job), the other contigs exactly.
+        + 'nods' BAMs: records WITHOUT a DS tag (read starting / ending on every special boundary, both strands):
+          counted once for their cell on their contig, bin not stated, same matrix for every bins-per-job / order.
+        + several libraries in ONE call with unnamed records in one / in both of them (+ same cells / one shared
+          cell), key tags None / ['DA'], submission, reversed and <=1-swap orders.
+        + get_binned_counts and get_binned_counts_prefixed: filter_function given (as above) / NOT given (the way
+          bamToBigWig calls it) x regions {None, contig names reversed / one / two, one coordinate region,
+          coordinate region + name + (contig, None, None)} x files {1, 2 disjoint cells, 2 same cells, 2 one shared cell} (prefixed: one
+          alias for all files / one per file / one file under two aliases).
+        + the installed script bamBinCounts.py in its own interpreter (-bin_size -j -t -min_mq -max_fragment_size
+          -head; dict and DataFrame output).
+        + read_counts as a truth table: {read1, read2, unpaired} x qcfail x duplicate x mp {absent, unique, multi} x
+          MAPQ {0, t-1, t, t+1}  x  min_mq {t, None, 0} x dedup x read1_only x ignore_mp x ignore_qcfail.
+Oracle  oracles/c12_oracle.py: direct count over the BAM records (until_eof), from the property text; for the
+        extension expected_general / judge_general (must-count, may-count and bin-not-stated records).
 """
 import atexit
 import contextlib
+import io
 import json
 import os
 import shutil
@@ -43,7 +66,10 @@ RULE = ('one case = one complete run of the real counter (generate_commands -> o
         'of submission order plus the reversal; transitions = job bodies executed. A case is non-trivial when at '
         'least one contig is split into >= 2 jobs (so records with sites on, and one base beside, a job boundary and '
         'records fetched by two neighbouring jobs exist) and the order is not the submission order, or it is a '
-        'conformance run with the real Pool')
+        'conformance run with the real Pool. Cases of the extension (they carry `mode`): one run of an entry point for '
+        'one option set / region set / file set / order, non-trivial when the results of >= 2 jobs are merged; a run '
+        'of the installed script (always non-trivial); one call of read_counts (non-trivial when the record has at '
+        'least one reason not to be counted)')
 ASSUMPTIONS = [
     'every counted record carries DS and SM; |DS - aligned span| <= max_fragment_size (each BAM is built for the '
     'max_fragment_size it is counted with; the bound is tight for some records)',
@@ -51,8 +77,19 @@ ASSUMPTIONS = [
     'same matrix for every bins-per-job and schedule, not to be counted in any particular bin',
     '"passing the mapping-quality threshold" means MAPQ >= min_mq (the CLI help says "Minimum mapping quality"); '
     '"rejected" means the QC-fail flag (how rejected molecules are written)',
-    'one BAM file per run (the property speaks of "the BAM"); alt_spans, head, skip_contigs and dedup=False are not '
-    'part of the property and are left at their defaults',
+    'options that select records keep the meaning their names give them: dedup=False counts duplicates too, '
+    'kwargs ignore_mp counts records marked as not unique too, min_mq None / 0 is no threshold, skip_contigs leaves '
+    'the named contigs out (and nothing else). What `head` keeps and where alt_spans puts a remapped site is NOT '
+    'stated: with head only "no count above the full matrix" (and the full matrix when head >= number of jobs), with '
+    'alt_spans only "every record once per cell" and invariance under bins-per-job / order are demanded for them',
+    'a record without SM belongs to an unnamed cell: all such records form one extra column whose name is free; a '
+    'record without DS is counted once for its cell on its contig, in a bin the property does not state (but the same '
+    'one for every job split); several input files: the counts of a cell name occurring in more than one file add up',
+    'get_binned_counts / get_binned_counts_prefixed called WITHOUT filter_function (as bamToBigWig does): read 1, '
+    'duplicate and QC-fail are decided by the property; nothing configures a threshold there, so whether records '
+    'with MAPQ < 60 or an mp mark are counted is left open (0 or 1 times). The prefixed form has no default cell '
+    'name and is only given records with SM. Regions with coordinates: only records whose site and aligned bases lie '
+    'inside [start, end) must be counted, every other record of that contig may be counted once or not at all',
     'bin identity: a bin is named by (key tag values, contig, bin start); a reported bin end must be start+bin size '
     'or that clipped to the contig length',
     'get_binned_counts has no filter of its own for MAPQ / mp; it is run with filter_function = read_counts(min_mq, '
@@ -77,12 +114,30 @@ def bounds(tier):
                 'max_fragment_size': [READ_LEN, 100, 1000], 'key_tags': [None, ['DA']], 'min_mq': [50],
                 'full_upto': 5, 'swaps': 2, 'edge_max_fragment_size': [1000], 'edge_orders': 'submission, reversed',
                 'get_binned_counts_threads': [None, 1, 4], 'conformance_threads': [3],
-                'contigs': _layouts([0])}
+                'contigs': _layouts([0]), **_bounds2('quick')}
     return {'layouts': [0, 1], 'bin_sizes': list(BIN_SIZES), 'bins_per_job': '1..bins on the longest contig',
             'max_fragment_size': [READ_LEN, 100, 1000], 'key_tags': [None, ['DA']], 'min_mq': [50, 1],
             'full_upto': 6, 'swaps': 3, 'edge_max_fragment_size': [READ_LEN, 100, 1000],
             'edge_orders': 'submission, reversed, <=1 swap', 'get_binned_counts_threads': [None, 1, 4],
-            'conformance_threads': [1, 3], 'contigs': _layouts([0, 1])}
+            'conformance_threads': [1, 3], 'contigs': _layouts([0, 1]), **_bounds2('thorough')}
+
+
+def _bounds2(tier):
+    quick = tier == 'quick'
+    return {
+        'options_max_fragment_size': [100] if quick else [0, READ_LEN, 100, 1000],
+        'options': [n for n, _, _, _ in _opt_sets(0, 50, 1)],
+        'options_orders': 'submission, reversed' if quick else 'submission, reversed, <=1 adjacent swap (first 6)',
+        'records_without_DS_max_fragment_size': [100] if quick else [READ_LEN, 100, 1000],
+        'two_libraries': [n for n, _ in MULTI],
+        'two_libraries_orders': 'submission, reversed, <=1 adjacent swap (first 6)',
+        'get_binned_counts_extension': 'filter {property, default (none given)} x regions {None, contig names '
+                                       'reversed / one / two, one coordinate region, coordinate region + name} x files '
+                                       '{1, 2 disjoint cells, 2 same cells, 2 one shared cell}; the prefixed form with '
+                                       'one alias for all files / one alias per file / one file under two aliases',
+        'installed_script': [c['opt'] for c in _cli_cases(tier)],
+        'read_counts_table': {'records': len(_rc_records()), 'option_sets': len(_rc_options())},
+    }
 
 
 def _layouts(idx):
@@ -101,8 +156,18 @@ def _all_specs():
     for layout in (0, 1):
         for D in (READ_LEN, 100, 1000):
             for mq in (50, 1):
-                for variant in ('core', 'edge'):
+                for variant in ('core', 'edge', 'ext', 'nods'):
                     out.append((variant, D, mq, layout))
+        for mq in (50, 1):
+            out.append(('ext', 0, mq, layout))
+            out.append(('extsm', 1000, mq, layout))
+    # second libraries (same records, cells renamed / partly renamed / not renamed)
+    for layout in (0, 1):
+        for lib in ('L2all', 'L2B', 'L2none'):
+            out.append(('ext', 100, 50, layout, lib))
+            out.append(('ext', 1000, 50, layout, lib))
+            out.append(('extsm', 1000, 50, layout, lib))
+        out.append(('core', 100, 50, layout, 'L2all'))
     return out
 
 
@@ -129,7 +194,7 @@ def setup():
     from gen import c12_bam as G
     for spec in _all_specs():
         if spec not in _BAMS:
-            path = os.path.join(_DIR, 'bam_%s_%d_%d_%d.bam' % spec)
+            path = os.path.join(_DIR, 'bam_' + '_'.join(str(x) for x in spec) + '.bam')
             G.write_bam(list(spec), path)
             _BAMS[spec] = path
 
@@ -162,6 +227,21 @@ def shards(tier):
                 out.append(('defaults', layout, mq))
     out.append(('conformance',))
     out.append(('hist',))
+    b2 = _bounds2(tier)
+    for layout in b['layouts']:
+        for mq in b['min_mq']:
+            for bin_size in b['bin_sizes']:
+                for bpj in range(1, _nbins(layout, bin_size) + 1):
+                    for D in b2['options_max_fragment_size']:
+                        out.append(('ocx', layout, mq, bin_size, bpj, D))
+                for D in b2['records_without_DS_max_fragment_size']:
+                    out.append(('nods', layout, mq, bin_size, D))
+                out.append(('gbx', layout, mq, bin_size))
+        for bin_size in b['bin_sizes']:
+            out.append(('multi', layout, bin_size))
+    for i in range(len(_cli_cases(tier))):
+        out.append(('cli', i))
+    out.append(('rc',))
     # biggest job sets first: better packing on the worker pool
     out.sort(key=lambda s: (0 if s[0] == 'oc' and s[4] == 1 else 1))
     return out
@@ -474,6 +554,8 @@ def run_shard(shard, tier, acc):
     if shard[0] == 'hist':
         _run_histories(acc, tier)
         return
+    if _run_new_shard(shard, tier, acc):
+        return
     kind = shard[0]
     b = bounds(tier)
     if kind == 'oc':
@@ -618,9 +700,575 @@ def _run_conformance(acc, tier):
         _report(acc, case, v, 1, True, f'real-pool,{case["fn"]},{label}')
 
 
+# ================================================================================================ audit extension
+# More of the space the quantifier covers: the options of generate_commands that select records or jobs (dedup,
+# kwargs ignore_mp, min_mq None/0, two key tags, skip_contigs, head, alt_spans, a one-element path list, an explicit
+# count_function), records without SM / without DS, several libraries with unnamed records, the other entry points
+# (get_binned_counts without a filter, with several files and with regions, get_binned_counts_prefixed, the installed
+# script) and the record filter itself as a truth table.  Cases of this part carry 'mode' and are judged by judge2.
+
+def _opt_sets(layout, bin_size, bpj):
+    """(name, case overrides, oracle overrides, mode) - simplest first"""
+    from gen import c12_bam as G
+    contigs = [c for c, _ in G.LAYOUTS[layout]]
+    lengths = dict(G.LAYOUTS[layout])
+    n_jobs = sum(-(-l // (bin_size * bpj)) for l in lengths.values())       # job width = bin * bins per job
+    first, second, last = contigs[0], contigs[1], contigs[-1]
+    out = [
+        ('base', {}, {}, 'exact'),
+        ('kwargs-copy-number+allele', {'kwargs': dict(KWARGS), 'key_tags': ['DA']}, {}, 'exact'),
+        ('two-key-tags', {'key_tags': ['DA', 'SM']}, {}, 'exact'),
+        ('dedup-off', {'gc_extra': {'dedup': False}}, {'dedup': False}, 'exact'),
+        ('ignore-mp', {'kwargs': {'ignore_mp': True}}, {'ignore_mp': True}, 'exact'),
+        ('dedup-off+ignore-mp', {'gc_extra': {'dedup': False}, 'kwargs': {'ignore_mp': True}},
+         {'dedup': False, 'ignore_mp': True}, 'exact'),
+        ('min-mq-none', {'min_mq': None}, {'min_mq': None}, 'exact'),
+        ('min-mq-0', {'min_mq': 0}, {'min_mq': 0}, 'exact'),
+        ('path-as-list', {'path_as': 'list'}, {}, 'exact'),
+        ('count-function-explicit', {'count_function': 'explicit', 'show_progress': True}, {}, 'exact'),
+        ('skip-first', {'gc_extra': {'skip_contigs': [first]}}, {'skip_contigs': [first]}, 'exact'),
+        ('skip-last-as-set', {'gc_extra': {'skip_contigs': [last]}, 'skip_as': 'set'}, {'skip_contigs': [last]}, 'exact'),
+        ('skip-two', {'gc_extra': {'skip_contigs': [second, last]}}, {'skip_contigs': [second, last]}, 'exact'),
+        ('skip-all', {'gc_extra': {'skip_contigs': list(contigs)}, 'show_progress': True}, {'skip_contigs': list(contigs)}, 'exact'),
+        ('skip-unknown-name', {'gc_extra': {'skip_contigs': ['no_such_contig']}}, {}, 'exact'),
+        ('skip-empty', {'gc_extra': {'skip_contigs': []}}, {}, 'exact'),
+        ('skip-first+allele', {'gc_extra': {'skip_contigs': [first]}, 'key_tags': ['DA']}, {'skip_contigs': [first]}, 'exact'),
+        ('head-1', {'gc_extra': {'head': 1}}, {}, 'head'),
+        ('head-2', {'gc_extra': {'head': 2}}, {}, 'head'),
+        ('head-all-jobs', {'gc_extra': {'head': n_jobs}}, {}, 'exact'),
+        ('head-more-than-jobs', {'gc_extra': {'head': n_jobs + 1}}, {}, 'exact'),
+        ('alt-spans-last', {'gc_extra': {'alt_spans': {last: [first, 37, 37 + lengths[last]]}}}, {'alt': [last]}, 'alt'),
+        ('alt-spans-two', {'gc_extra': {'alt_spans': {second: [first, 100, 100 + lengths[second]],
+                                                      last: [first, 37, 37 + lengths[last]]}}},
+         {'alt': [second, last]}, 'alt'),
+        ('alt-spans-unknown-name', {'gc_extra': {'alt_spans': {'no_such_contig': [first, 37, 87]}}}, {}, 'exact'),
+    ]
+    return out
+
+
+_WANT2 = {}
+
+
+def _want2(case):
+    """oracle result for a new-style case (cached per process)"""
+    from oracles import c12_oracle as O
+    o = dict(case.get('oracle') or {})
+    specs = case.get('bams') or [case['bam']]
+    k = json.dumps([specs, case['bin_size'], o, case.get('min_mq', 50), case.get('key_tags'), case.get('regions'),
+                    case.get('aliases')], sort_keys=True)
+    if k not in _WANT2:
+        regions = case.get('regions')
+        contigs = None
+        if regions is not None:
+            contigs = [r if isinstance(r, str) else r[0] for r in regions]
+        w = O.expected_general([_bam(s) for s in specs], case['bin_size'],
+                               min_mq=o['min_mq'] if 'min_mq' in o else case.get('min_mq', 50),
+                               dedup=o.get('dedup', True), ignore_mp=o.get('ignore_mp', False),
+                               key_tags=case.get('key_tags'), skip_contigs=o.get('skip_contigs'),
+                               default_filter=bool(o.get('default_filter')), aliases=case.get('aliases'),
+                               contigs=contigs)
+        if regions is not None and any(not isinstance(r, str) for r in regions):
+            w = _demote_outside_regions(w, specs, case, o)
+        _WANT2[k] = w
+    return _WANT2[k]
+
+
+def _demote_outside_regions(w, specs, case, o):
+    """regions given with coordinates: the property does not say how far a region reaches; only records whose site AND
+    aligned bases lie inside [start, end) must be counted, every other record of the contig may be counted once or not"""
+    import pysam
+    from oracles import c12_oracle as O
+    exact, opn = {}, {}
+    n_exact = n_open = 0
+    reg = {r[0]: (r[1], r[2]) for r in case['regions'] if not isinstance(r, str)}
+    whole = {r for r in case['regions'] if isinstance(r, str)}
+    bs = case['bin_size']
+    for i, spec in enumerate(specs):
+        with pysam.AlignmentFile(_bam(spec)) as f:
+            for read in f.fetch(until_eof=True):
+                contig = read.reference_name
+                if contig not in reg and contig not in whole:
+                    continue
+                c = O.classify(read, o['min_mq'] if 'min_mq' in o else case.get('min_mq', 50), True, False,
+                               bool(o.get('default_filter')))
+                if c == 'skip':
+                    continue
+                site = int(read.get_tag('DS'))
+                if contig in reg and reg[contig][0] is not None:
+                    lo, hi = reg[contig]
+                    inside = lo <= site < hi and lo <= read.reference_start and read.reference_end <= hi
+                    if not inside:
+                        c = 'open'
+                cell = read.get_tag('SM') if read.has_tag('SM') else O.NOSM
+                if case.get('aliases') is not None:
+                    cell = f"{case['aliases'][i]}|{cell}"
+                key = (contig, (site // bs) * bs)
+                tgt = exact if c == 'count' else opn
+                row = tgt.setdefault(key, {})
+                row[cell] = row.get(cell, 0) + 1
+                if c == 'count':
+                    n_exact += 1
+                else:
+                    n_open += 1
+    return dict(w, exact=exact, open=opn, n_exact=n_exact, n_open=n_open)
+
+
+def _site2(case):
+    s = case['fn']
+    if case.get('opt'):
+        s += ':' + case['opt']
+    return s
+
+
+def _matrix2(case, got, want):
+    """canonical rows -> matrix with keys without the bin end, unnamed columns mapped to NOSM; malformed keys"""
+    from oracles import c12_oracle as O
+    n_tags = len(case.get('key_tags') or ())
+    matrix, bad = _canon_to_matrix(got, n_tags)
+    known = set(want['cells'])
+    out = {}
+    for key, row in matrix.items():
+        r = out.setdefault(key, {})
+        for cell, n in row.items():
+            name = cell
+            bare = cell.split('|', 1)[1] if (case.get('aliases') is not None and '|' in cell) else cell
+            if bare not in known:
+                name = cell[:len(cell) - len(bare)] + O.NOSM
+            r[name] = r.get(name, 0) + n
+    return out, bad
+
+
+def judge2(case, got, err, ref=None, ref_err=None):
+    """new-style cases. ref: the canonical result of the reference run (1 bin per job, submission order) for the modes
+    that demand invariance only where the property leaves the bin open"""
+    from oracles import c12_oracle as O
+    site = _site2(case)
+    mode = case['mode']
+    if err is not None:
+        return [(f'{site}:exception:{type(err).__name__}', repr(err))]
+    want = _want2(case)
+    n_tags = len(case.get('key_tags') or ())
+    out = []
+    matrix, bad = _matrix2(case, got, want)
+    if mode == 'alt':
+        # the remapped contigs: totals per cell and invariance only; the other contigs exactly
+        alt = set(case['oracle']['alt'])
+        rest = {k: v for k, v in matrix.items() if k[n_tags] not in alt}
+        moved = {k: v for k, v in matrix.items() if k[n_tags] in alt}
+        want_rest = dict(want, exact={k: v for k, v in want['exact'].items() if k[n_tags] not in alt})
+        under, over = O.judge_general(rest, want_rest, n_tags)
+        tot_got, tot_want = {}, {}
+        for k, row in moved.items():
+            for cell, n in row.items():
+                kk = tuple(k[:n_tags]) + (cell,)
+                tot_got[kk] = tot_got.get(kk, 0) + n
+        for k, row in want['exact'].items():
+            if k[n_tags] in alt:
+                for cell, n in row.items():
+                    kk = tuple(k[:n_tags]) + (cell,)
+                    tot_want[kk] = tot_want.get(kk, 0) + n
+        for kk in sorted(set(tot_got) | set(tot_want), key=repr):
+            a, b = tot_got.get(kk, 0), tot_want.get(kk, 0)
+            if a < b:
+                under.append((('remapped-contigs',) + kk[:-1], kk[-1], a, b, b))
+            elif a > b:
+                over.append((('remapped-contigs',) + kk[:-1], kk[-1], a, b, b))
+        if bad:
+            out.append((f'{site}:count-in-unknown-bin', {'keys': bad[:5]}))
+    else:
+        lengths = _lengths(case['bam'])
+        bs = case['bin_size']
+        for key, row in got:
+            if case['fn'] in ('obtain_counts', 'cli'):
+                if len(key) == n_tags + 3 and not O.tiling_ok(key[-3], key[-2], key[-1], bs, lengths):
+                    bad.append((tuple(key), 'not-a-bin-of-the-tiling'))
+            elif len(key) == 2 and not (key[0] in lengths and key[1] % bs == 0 and 0 <= key[1] < lengths[key[0]]):
+                bad.append((tuple(key), 'not-a-bin-of-the-tiling'))
+        if bad:
+            out.append((f'{site}:count-in-unknown-bin', {'keys': bad[:5]}))
+        under, over = O.judge_general(matrix, want, n_tags)
+        if mode == 'head':
+            under = []                          # which jobs `head` keeps is not stated: never more than the full matrix
+    if under or over:
+        clause = 'undercount' if under and not over else 'overcount' if over and not under else 'miscount'
+        out.append((f'{site}:{clause}', {'must_count': want['n_exact'], 'may_count': want['n_open'],
+                                         'without_DS': want['n_floating'], 'got_total': O.total(matrix),
+                                         'under(key,cell,got,min,max)': under[:4], 'over(key,cell,got,min,max)': over[:4],
+                                         'n_under': len(under), 'n_over': len(over)}))
+    if not out and case.get('invariant'):
+        if ref_err is not None:
+            out.append((f'{site}:exception:{type(ref_err).__name__}', repr(ref_err)))
+        elif ref is not None and got != ref:
+            a = {json.dumps(k): row for k, row in ref}
+            c = {json.dumps(k): row for k, row in got}
+            differ = [(k, a.get(k), c.get(k)) for k in sorted(set(a) | set(c)) if a.get(k) != c.get(k)]
+            clause = 'depends-on-schedule' if case.get('bins_per_job') == 1 else 'depends-on-bins-per-job'
+            out.append((f'{site}:{clause}', {'bins(key, 1-bin-per-job, this)': differ[:4], 'n_differing_bins': len(differ)}))
+    return out
+
+
+def _run2(case):
+    """-> (got, err, schedule)"""
+    from gen import c12_run
+    specs = case.get('bams') or [case['bam']]
+    paths = [_bam(s) for s in specs]
+    arg = paths if (len(paths) > 1 or case['fn'] != 'obtain_counts') else paths[0]
+    with _scheduled(case.get('order')) as sch:
+        try:
+            got, err = c12_run.call(case, arg), None
+        except bind.HarnessError:
+            raise
+        except Exception as e:
+            got, err = None, e
+    return got, err, sch
+
+
+def _ref_case(case):
+    return dict(case, bins_per_job=1, order=None)
+
+
+_REF2 = {}
+
+
+def _reference2(case):
+    rc = _ref_case(case)
+    k = json.dumps(rc, sort_keys=True)
+    if k not in _REF2:
+        g, e, _ = _run2(rc)
+        _REF2[k] = (g, e)
+    return _REF2[k]
+
+
+def _orders2(tier, n, wide=False):
+    if n <= 1:
+        return [None]
+    out = [None, list(range(n - 1, -1, -1))]
+    if tier != 'quick' or wide:
+        for o in sched.near_orders(n, swaps=1)[:7]:
+            o = list(o)
+            if o != list(range(n)) and o not in out:
+                out.append(o)
+    return out
+
+
+def _explore2(acc, base, tier, label, wide=False, one_order=False):
+    """submission order first (learns the number of jobs), then the other orders; every run judged, and compared with
+    the submission-order run"""
+    case = dict(base, order=None)
+    got, err, sch = _run2(case)
+    n = sch.log[0]['n'] if sch.log else 0
+    ref = ref_err = None
+    if base.get('invariant'):
+        ref, ref_err = _reference2(case)
+    first = judge2(case, got, err, ref, ref_err)
+    split = n >= 2                      # results of >= 2 jobs are merged
+    tag = 'exception' if err is not None else ('violation' if first else 'ok')
+    _report(acc, case, first, sch.executed, split, f'{label},order=submission,{tag}')
+    acc.count('job_bodies_executed', sch.executed)
+    for order in _orders2(tier, n, wide):
+        if order is None or one_order:
+            continue
+        c = dict(base, order=order)
+        g, e, s = _run2(c)
+        v = judge2(c, g, e, ref, ref_err)
+        if not v and err is None and e is None and g != got:
+            v = [(f'{_site2(c)}:depends-on-schedule', {'submission_order': got[:6], 'this_order': g[:6]})]
+        tag = 'exception' if e is not None else ('violation' if v else 'ok')
+        _report(acc, c, v, s.executed, split, f'{label},order={_order_kind(order, n)},{tag}')
+        acc.count('job_bodies_executed', s.executed)
+    return n
+
+
+def _run_ocx(acc, tier, layout, mq, bin_size, bpj, D):
+    for name, over, orc, mode in _opt_sets(layout, bin_size, bpj):
+        base = {'fn': 'obtain_counts', 'mode': mode, 'opt': name, 'bam': ['ext', D, mq, layout], 'bin_size': bin_size,
+                'bins_per_job': bpj, 'max_fragment_size': D, 'key_tags': None, 'min_mq': mq, 'kwargs': {},
+                'threads': 4, 'oracle': orc}
+        base.update(over)
+        if mode == 'alt':
+            base['invariant'] = True
+        _explore2(acc, base, tier, f'options:{name}')
+
+
+def _run_nods(acc, tier, layout, mq, bin_size, D):
+    for kt in (None, ['DA']):
+        for bpj in range(1, _nbins(layout, bin_size) + 1):
+            base = {'fn': 'obtain_counts', 'mode': 'floating', 'opt': 'records-without-DS', 'bam': ['nods', D, mq, layout],
+                    'bin_size': bin_size, 'bins_per_job': bpj, 'max_fragment_size': D, 'key_tags': kt, 'min_mq': mq,
+                    'kwargs': {}, 'threads': 4, 'oracle': {}, 'invariant': True}
+            _explore2(acc, base, tier, 'records-without-DS:obtain_counts')
+    base = {'fn': 'get_binned_counts', 'mode': 'floating', 'opt': 'records-without-DS', 'bam': ['nods', D, mq, layout],
+            'bin_size': bin_size, 'min_mq': mq, 'threads': 2, 'oracle': {}}
+    _explore2(acc, base, tier, 'records-without-DS:get_binned_counts')
+
+
+MULTI = [   # (name, [(variant, lib)...])
+    ('unnamed-records-in-one-library', [('ext', None), ('core', 'L2all')]),
+    ('unnamed-records-in-both-libraries', [('ext', None), ('ext', 'L2all')]),
+    ('unnamed-records+same-cells', [('ext', None), ('ext', 'L2none')]),
+    ('unnamed-records+shared-cell', [('ext', None), ('ext', 'L2B')]),
+]
+
+
+def _spec(variant, D, mq, layout, lib):
+    return [variant, D, mq, layout] if lib is None else [variant, D, mq, layout, lib]
+
+
+def _run_multi(acc, tier, layout, bin_size):
+    """several libraries in ONE call, records without a cell name in one / in both of them"""
+    D = 100
+    for name, pair in MULTI:
+        specs = [_spec(v, D, 50, layout, lib) for v, lib in pair]
+        for kt in (None, ['DA']):
+            for bpj in sorted({1, 2, _nbins(layout, bin_size)}):
+                if kt is not None and bpj != 1 and tier == 'quick':
+                    continue
+                base = {'fn': 'obtain_counts', 'mode': 'exact', 'opt': 'two-libraries:' + name, 'bam': specs[0],
+                        'bams': specs, 'bin_size': bin_size, 'bins_per_job': bpj, 'max_fragment_size': D,
+                        'key_tags': kt, 'min_mq': 50, 'kwargs': {}, 'threads': 4, 'oracle': {}}
+                _explore2(acc, base, tier, f'two-libraries:{name}', wide=True)
+
+
+def _gbx_cases(layout, mq, bin_size):
+    from gen import c12_bam as G
+    contigs = [c for c, _ in G.LAYOUTS[layout]]
+    lengths = dict(G.LAYOUTS[layout])
+    D = 1000
+    region_sets = [
+        ('regions-none', None),
+        ('regions-names-reversed', list(reversed(contigs))),
+        ('regions-one-name', [contigs[0]]),
+        ('regions-two-names', [contigs[-1], contigs[1]]),
+        ('regions-coordinates', [[contigs[0], 100, 300]]),
+        ('regions-coordinates+name', [[contigs[1], 50, lengths[contigs[1]]], contigs[0], [contigs[-1], None, None]]),
+    ]
+    out = []
+    for flt in ('property', 'default'):
+        for rname, regions in region_sets:
+            for libs in ([None], [None, 'L2all'], [None, 'L2none'], [None, 'L2B']):
+                if len(libs) > 1 and rname not in ('regions-none', 'regions-coordinates+name'):
+                    continue                        # several files: with the default regions and with the widest region form
+                # get_binned_counts: records without SM go to a default column
+                if mq == 50 or len(libs) == 1:
+                    specs = [_spec('ext', D, mq if lib is None else 50, layout, lib) for lib in libs]
+                    out.append({'fn': 'get_binned_counts', 'mode': 'exact', 'opt': f'{flt}-filter', 'bam': specs[0],
+                                'bams': specs, 'bin_size': bin_size, 'min_mq': mq, 'threads': 2, 'filter': flt,
+                                'regions': regions, 'oracle': {'default_filter': flt == 'default'},
+                                'one_order': rname != 'regions-none',
+                                'label': f'get_binned_counts,{flt}-filter,{rname},files={len(libs)}'})
+                    # the prefixed form has no default cell name: every record carries SM
+                    specs = [_spec('extsm', D, mq if lib is None else 50, layout, lib) for lib in libs]
+                    shapes = [[['x', [0]]], [['x', [0]], ['y', [0]]]] if len(libs) == 1 else \
+                        [[['x', [0, 1]]], [['x', [0]], ['y', [1]]]]
+                    for shape in shapes:
+                        used = [i for _, idx in shape for i in idx]
+                        aliases = [a for a, idx in shape for _ in idx]
+                        out.append({'fn': 'get_binned_counts_prefixed', 'mode': 'exact', 'opt': f'{flt}-filter',
+                                    'bam': specs[0], 'bams': [specs[i] for i in used], 'bam_dict_shape': shape,
+                                    'bam_dict': _reindex(shape), 'aliases': aliases, 'bin_size': bin_size, 'min_mq': mq,
+                                    'threads': 2, 'filter': flt, 'regions': regions,
+                                    'oracle': {'default_filter': flt == 'default'}, 'one_order': rname != 'regions-none',
+                                    'label': f'get_binned_counts_prefixed,{flt}-filter,{rname},files={len(libs)},aliases={len(shape)}'})
+    return out
+
+
+def _reindex(shape):
+    """bam_dict with indices into the list of paths handed to the runner (one path per (alias, file) occurrence)"""
+    out, i = [], 0
+    for alias, idx in shape:
+        out.append([alias, list(range(i, i + len(idx)))])
+        i += len(idx)
+    return out
+
+
+def _run_gbx(acc, tier, layout, mq, bin_size):
+    for base in _gbx_cases(layout, mq, bin_size):
+        base = dict(base)
+        label = base.pop('label')
+        one = base.pop('one_order')            # results are consumed in submission order (imap): the execution order
+        _explore2(acc, base, tier, label, one_order=one)   # is varied for the default regions only
+
+
+# ---- the installed script
+
+def _cli_cases(tier):
+    if tier == 'quick':
+        return [c for c in _cli_cases_for([0]) if c['opt'] in ('frame-output', 'min_mq-option', 'head')]
+    return _cli_cases_for([0, 1])
+
+
+def _cli_cases_for(layouts):
+    out = []
+    for layout in layouts:
+        out.append({'fn': 'cli', 'mode': 'exact', 'opt': 'defaults', 'bam': ['core', 1000, 50, layout], 'bin_size': 50,
+                    'argv': [['-bin_size', 50], ['-j', 1], ['-t', 3], ['-min_mq', 50]], 'min_mq': 50, 'oracle': {}})
+        out.append({'fn': 'cli', 'mode': 'exact', 'opt': 'frame-output', 'bam': ['ext', 1000, 50, layout], 'bin_size': 100,
+                    'out_suffix': '.pickle.gz',
+                    'argv': [['-bin_size', 100], ['-j', 2], ['-t', 2], ['-min_mq', 50]], 'min_mq': 50, 'oracle': {}})
+        out.append({'fn': 'cli', 'mode': 'exact', 'opt': 'min_mq-option', 'bam': ['core', 1000, 1, layout], 'bin_size': 250,
+                    'argv': [['-bin_size', 250], ['-j', 1], ['-t', 2], ['-min_mq', 1]], 'min_mq': 1, 'oracle': {}})
+        out.append({'fn': 'cli', 'mode': 'exact', 'opt': 'max_fragment_size-option', 'bam': ['core', 100, 50, layout],
+                    'bin_size': 100, 'argv': [['-bin_size', 100], ['-j', 1], ['-t', 2], ['-min_mq', 50],
+                                              ['-max_fragment_size', 100]], 'min_mq': 50, 'oracle': {}})
+        out.append({'fn': 'cli', 'mode': 'head', 'opt': 'head', 'bam': ['core', 1000, 50, layout], 'bin_size': 50,
+                    'argv': [['-bin_size', 50], ['-j', 2], ['-t', 2], ['-min_mq', 50], ['-head', 2]], 'min_mq': 50,
+                    'oracle': {}})
+    return out
+
+
+def _run_cli_case(case):
+    from gen import c12_run
+    try:
+        return c12_run.call(case, _bam(case['bam'])), None
+    except bind.HarnessError:
+        raise
+    except Exception as e:
+        return None, e
+
+
+def _run_cli(acc, tier, idx):
+    case = _cli_cases(tier)[idx]
+    got, err = _run_cli_case(case)
+    v = judge2(case, got, err)
+    tag = 'exception' if err is not None else ('violation' if v else 'ok')
+    _report(acc, case, v, 1, True, f'installed-script,{case["opt"]},{tag}')
+
+
+# ---- the record filter as a truth table
+
+RC_T = 50
+
+
+def _rc_records():
+    out = []
+    for pairing in ('read1', 'read2', 'unpaired'):
+        for qcfail in (False, True):
+            for dup in (False, True):
+                for mp in (None, 'unique', 'multi'):
+                    for mapq in (0, RC_T - 1, RC_T, RC_T + 1):
+                        out.append({'pairing': pairing, 'qcfail': qcfail, 'dup': dup, 'mp': mp, 'mapq': mapq})
+    return out
+
+
+def _rc_options():
+    out = []
+    for min_mq in (RC_T, None, 0):
+        for dedup in (True, False):
+            for read1_only in (True, False):
+                for ignore_mp in (False, True):
+                    for ignore_qcfail in (False, True):
+                        out.append({'min_mq': min_mq, 'dedup': dedup, 'read1_only': read1_only, 'ignore_mp': ignore_mp,
+                                    'ignore_qcfail': ignore_qcfail})
+    return out
+
+
+def _rc_make(rec):
+    import pysam
+    from gen import reads as R
+    hdr = R.header([('c1', 500)])
+    tags = {'DS': 100, 'SM': 'cellA'}
+    if rec['mp'] is not None:
+        tags['mp'] = rec['mp']
+    flag_extra = (0x400 if rec['dup'] else 0) | (0x200 if rec['qcfail'] else 0)
+    paired = rec['pairing'] != 'unpaired'
+    return R.make_read(hdr, 'r', 'A' * READ_LEN, 'c1', 100, f'{READ_LEN}M', read1=rec['pairing'] == 'read1', paired=paired,
+                       mate=('c1', 100, True, False) if paired else None, mapq=rec['mapq'], tags=tags,
+                       flag_extra=flag_extra)
+
+
+def _rc_expected(rec, opt):
+    """the record filter in the words of the property, each option switching off exactly the clause it names"""
+    if opt['read1_only'] and rec['pairing'] != 'read1':
+        return False
+    if rec['qcfail'] and not opt['ignore_qcfail']:
+        return False
+    if rec['dup'] and opt['dedup']:
+        return False
+    if rec['mp'] not in (None, 'unique') and not opt['ignore_mp']:
+        return False
+    if opt['min_mq'] is not None and rec['mapq'] < opt['min_mq']:
+        return False
+    return True
+
+
+def _rc_one(case):
+    from singlecellmultiomics.bamProcessing import bamBinCounts as B
+    read = _rc_make(case['record'])
+    opt = case['options']
+    want = _rc_expected(case['record'], opt)
+    sink = io.StringIO()
+    try:
+        with contextlib.redirect_stdout(sink):
+            if case.get('positional'):
+                got = B.read_counts(read, opt['min_mq'], opt['dedup'], opt['read1_only'], opt['ignore_mp'],
+                                    opt['ignore_qcfail'], bool(case.get('verbose')))
+            else:
+                got = B.read_counts(read, min_mq=opt['min_mq'], dedup=opt['dedup'], read1_only=opt['read1_only'],
+                                    ignore_mp=opt['ignore_mp'], ignore_qcfail=opt['ignore_qcfail'],
+                                    verbose=bool(case.get('verbose')))
+    except Exception as e:
+        return [(f'read_counts:exception:{type(e).__name__}', repr(e))], None
+    if bool(got) != want:
+        return [(f'read_counts:{"accepts-a-record-to-reject" if got else "rejects-a-record-to-count"}',
+                 {'record': case['record'], 'options': opt, 'got': repr(got)})], bool(got)
+    return [], bool(got)
+
+
+def _run_rc(acc, tier):
+    for oi, opt in enumerate(_rc_options()):
+        for ri, rec in enumerate(_rc_records()):
+            case = {'fn': 'read_counts', 'mode': 'filter', 'record': rec, 'options': opt,
+                    'verbose': (oi + ri) % 5 == 0, 'positional': (oi + ri) % 2 == 1}
+            v, got = _rc_one(case)
+            reasons = sum([rec['pairing'] != 'read1', rec['qcfail'], rec['dup'], rec['mp'] == 'multi', rec['mapq'] < RC_T])
+            acc.case(case, transitions=1, execs=1, nontrivial=reasons >= 1,
+                     outcome=f'read_counts,{"violation" if v else ("accept" if got else "reject")}')
+            for sig, d in v:
+                acc.violation(sig, case, d)
+
+
+def _run_new_shard(shard, tier, acc):
+    kind = shard[0]
+    if kind == 'ocx':
+        _run_ocx(acc, tier, *shard[1:])
+    elif kind == 'nods':
+        _run_nods(acc, tier, *shard[1:])
+    elif kind == 'multi':
+        _run_multi(acc, tier, *shard[1:])
+    elif kind == 'gbx':
+        _run_gbx(acc, tier, *shard[1:])
+    elif kind == 'cli':
+        _run_cli(acc, tier, shard[1])
+    elif kind == 'rc':
+        _run_rc(acc, tier)
+    else:
+        return False
+    return True
+
+
+def _replay2(case):
+    if case['mode'] == 'filter':
+        return _rc_one(case)[0]
+    if case['fn'] == 'cli':
+        got, err = _run_cli_case(case)
+        return judge2(case, got, err)
+    ref = ref_err = None
+    if case.get('invariant'):
+        ref, ref_err = _reference2(case)
+    g, e, _ = _run2(case)
+    v = judge2(case, g, e, ref, ref_err)
+    if not v and case.get('order') is not None:
+        g0, e0, _ = _run2(dict(case, order=None))
+        if e0 is None and g0 != g:
+            v = [(f'{_site2(case)}:depends-on-schedule', {'submission_order': g0[:6], 'this_order': g[:6]})]
+    return v
+
+
 # ------------------------------------------------------------------------------------------------ replay
 
 def replay(case):
+    if case.get('mode'):
+        return _replay2(case)
     if case.get('real_pool'):
         res = _real_pool([case])[0]
         return _judge_conformance(case, res)[0]
